@@ -112,7 +112,7 @@ class C04(Prop):
             rs = rng.getrandbits(32)
             ev.append({"op": "fs_put", "path": "sim://in.v", "text": design_shrink.render("v", d, rs, cfg["render"]),
                        "design": d, "fmt": "v", "render": cfg["render"], "render_seed": rs,
-                       "aliased": any(p.get("alias") or p.get("alias_wide") for m in d["modules"] for p in m["ports"])})
+                       "aliased": any(p.get("alias") or p.get("alias_wide") or p.get("alias_bits") for m in d["modules"] for p in m["ports"])})
         ev.append({"op": "parse", "path": "sim://in.v", "tag": "source"})
         net = "e%d.0" % (len(ev) - 1)
         for t in cfg["transforms"]:
